@@ -26,7 +26,10 @@ ORACLES = {
     "O_fence_content": "a fence token's content is exactly the lines between the fences (container prefixes removed): "
                        "directives inside quotes/lists in the generated documents",
     "O_adm": "admonition-type directives nested_parse their content at content_offset: note/tip/warning/admonition cases",
-    "tokenize": "options_to_items on the printed option lines (C07/C08 oracle)",
+    "tokenize": "options_to_items on the printed option lines (C07/C08 oracle); C04_lines_nested_c07 instantiates it with the C07 "
+                "model, whose C07_only_tokenize_error discharges the accepts-every-text premise for classes without arguments",
+    "inline": "markdown-it gives inline tokens no map of their own; _render_tokens copies the block's (model: Leaf ins); "
+              "correspondence on unknown-role warnings written on the 1st..3rd line of a paragraph",
 }
 ASSUMPTIONS = ["docutils front end (publish with MyST Parser); line numbers observed directly after Parser.parse (no transforms)",
                "option warnings of a directive may carry the line of the directive or of its option block opener "
